@@ -279,8 +279,11 @@ def finish(prop, level, tier, rep, t0, coverage, assumptions, replay_fn=None):
         coverage=jsonable(cov), assumptions=list(assumptions),
         wall_s=round(time.time() - t0, 2), violations=len(confirmed))
     validate_evidence(ev)
-    os.makedirs(os.path.join(env.VERIF_DIR, 'evidence'), exist_ok=True)
-    p = os.path.join(env.VERIF_DIR, 'evidence', f'{prop}.json')
+    # runs against a MODIFIED copy of the library (DD_REPO set by the tools that apply mutants
+    # and seeds) must not overwrite the evidence of the real tree
+    evdir = os.environ.get('VERIF_EVIDENCE_DIR') or os.path.join(env.VERIF_DIR, 'evidence')
+    os.makedirs(evdir, exist_ok=True)
+    p = os.path.join(evdir, f'{prop}.json')
     with open(p + '.tmp', 'w') as f:
         json.dump(ev, f, indent=1, sort_keys=True)
     os.replace(p + '.tmp', p)
